@@ -18,6 +18,9 @@ mod possible_std;
 pub mod standard_library;
 mod text;
 
+#[cfg(feature = "verif-hooks")]
+pub mod verif_hooks;
+
 #[cfg(test)]
 mod test_util;
 
@@ -274,6 +277,47 @@ macro_rules! use_lints {
                 diagnostics
             }
 
+            /// `test_on` without the final `filter_diagnostics` step.
+            #[cfg(feature = "verif-hooks")]
+            pub fn verif_test_on_unfiltered(&self, ast: &Ast) -> Vec<CheckerDiagnostic> {
+                let mut diagnostics = Vec::new();
+                let ast_context = AstContext::from_ast(ast);
+
+                macro_rules! check_lint {
+                    ($name:ident) => {
+                        let lint = &self.$name;
+                        let lint_pass = lint.pass(ast, &self.context, &ast_context);
+                        diagnostics.extend(&mut lint_pass.into_iter().map(|diagnostic| {
+                            CheckerDiagnostic {
+                                diagnostic,
+                                severity: self.get_lint_severity(lint, stringify!($name)),
+                            }
+                        }));
+                    };
+                }
+
+                $(
+                    check_lint!($lint_name);
+                )+
+
+                $(
+                    $(
+                        #[$meta]
+                        {
+                            check_lint!($meta_lint_name);
+                        }
+                    )+
+                )+
+
+                diagnostics
+            }
+
+            /// The severity `test_on` attaches to `invalid_lint_filter` diagnostics.
+            #[cfg(feature = "verif-hooks")]
+            pub fn verif_invalid_lint_filter_severity(&self) -> Severity {
+                self.get_lint_severity(&self.invalid_lint_filter, "invalid_lint_filter")
+            }
+
             fn get_lint_severity<R: Lint>(&self, _lint: &R, name: &'static str) -> Severity {
                 match self.config.lints.get(name) {
                     Some(variation) => variation.to_severity(),
@@ -292,6 +336,11 @@ pub struct CheckerDiagnostic {
 
 pub fn lint_exists(name: &str) -> bool {
     ALL_LINTS.contains(&name)
+}
+
+#[cfg(feature = "verif-hooks")]
+pub fn verif_all_lints() -> Vec<&'static str> {
+    ALL_LINTS.clone()
 }
 
 use_lints! {
